@@ -28,15 +28,20 @@ Proof. destruct x, y; simpl; try congruence. intros H1 H2. apply Rleb_true in H1
 Section C12.
   Variable U1 : nat -> ext R -> R.
   Variable UI : idx -> list (ext R) -> R.
-  Hypothesis UI_inf : forall I x, existsb is_inf x = true -> UI (Some I) x = 0.
-  Hypothesis UI_one : forall i x, UI (Some [i]) [x] = U1 i x.
+  (* `ok I`: I is an index list the model family is defined for (instantiated by okI d: NoDup, entries < d) *)
+  Variable ok : list nat -> Prop.
+  Hypothesis UI_inf : forall I x, ok I -> length x = length I -> existsb is_inf x = true -> UI (Some I) x = 0.
+  Hypothesis UI_one : forall i x, ok [i] -> UI (Some [i]) [x] = U1 i x.
+  Definition ok2 (i1 i2 : nat) : Prop := ok [i1; i2] /\ ok [i1] /\ ok [i2].
+  Definition ok3 (i1 i2 i3 : nat) : Prop :=
+    ok [i1; i2; i3] /\ ok [i1; i2] /\ ok [i1; i3] /\ ok [i2; i3] /\ ok [i1] /\ ok [i2] /\ ok [i3].
 
-  Lemma i1p I : UI (Some I) [PInf] = 0. Proof. apply UI_inf; reflexivity. Qed.
-  Lemma i1n I : UI (Some I) [NInf] = 0. Proof. apply UI_inf; reflexivity. Qed.
-  Lemma i2a I y : UI (Some I) [PInf; y] = 0. Proof. apply UI_inf; reflexivity. Qed.
-  Lemma i2b I y : UI (Some I) [NInf; y] = 0. Proof. apply UI_inf; reflexivity. Qed.
-  Lemma i2c I x : UI (Some I) [x; PInf] = 0. Proof. apply UI_inf; simpl; destruct x; reflexivity. Qed.
-  Lemma i2d I x : UI (Some I) [x; NInf] = 0. Proof. apply UI_inf; simpl; destruct x; reflexivity. Qed.
+  Lemma i1p i : ok [i] -> UI (Some [i]) [PInf] = 0. Proof. intros; apply UI_inf; auto. Qed.
+  Lemma i1n i : ok [i] -> UI (Some [i]) [NInf] = 0. Proof. intros; apply UI_inf; auto. Qed.
+  Lemma i2a i j y : ok [i; j] -> UI (Some [i; j]) [PInf; y] = 0. Proof. intros; apply UI_inf; auto. Qed.
+  Lemma i2b i j y : ok [i; j] -> UI (Some [i; j]) [NInf; y] = 0. Proof. intros; apply UI_inf; auto. Qed.
+  Lemma i2c i j x : ok [i; j] -> UI (Some [i; j]) [x; PInf] = 0. Proof. intros; apply UI_inf; auto; simpl; destruct x; reflexivity. Qed.
+  Lemma i2d i j x : ok [i; j] -> UI (Some [i; j]) [x; NInf] = 0. Proof. intros; apply UI_inf; auto; simpl; destruct x; reflexivity. Qed.
 
   Notation f2 := (fast_2d RNum U1 UI).
   Notation mnd := (mass_nd RNum UI).
@@ -74,33 +79,33 @@ Section C12.
   Ltac leaf := rewrite mass_nd_none by (fs; reflexivity); cbn [length Nat.odd Nat.even negb].
 
   Theorem fast_2d_agrees i1 i2 a1 a2 b1 b2 fuel :
-    i1 <> i2 -> (2 <= fuel)%nat ->
+    ok2 i1 i2 -> i1 <> i2 -> (2 <= fuel)%nat ->
     (straddles RNum a1 b1 && straddles RNum a2 b2)%bool = false ->
     f2 [a1; a2] [b1; b2] (Some [i1; i2]) = mnd fuel [a1; a2] [b1; b2] [i1; i2].
   Proof.
-    intros Hi Hf Hs. destruct fuel as [|[|fuel]]; try lia.
+    intros [K12 [K1 K2]] Hi Hf Hs. destruct fuel as [|[|fuel]]; try lia.
     assert (E12 : (i1 =? i2)%nat = false) by (apply Nat.eqb_neq; exact Hi).
     unfold fast_2d, mass_2d, mass_1d, straddles in *.
     destruct (@xlt0 RNum a1 && @xge0 RNum b1)%bool eqn:S1; destruct (@xlt0 RNum a2 && @xge0 RNum b2)%bool eqn:S2;
       try discriminate; try (apply andb_prop in S1; destruct S1 as [A1 B1]); try (apply andb_prop in S2; destruct S2 as [A2 B2]);
       cbn [is_some is_none olen Nat.eqb andb length].
-    all: repeat node; unfold volume; cbn; rewrite ?i1p, ?i1n, ?i2a, ?i2b, ?i2c, ?i2d, ?UI_one; try ring.
+    all: repeat node; unfold volume; cbn; rewrite ?i1p, ?i1n, ?i2a, ?i2b, ?i2c, ?i2d, ?UI_one by assumption; try ring.
   Qed.
 
-  Lemma i3a I y z : UI (Some I) [PInf; y; z] = 0. Proof. apply UI_inf; reflexivity. Qed.
-  Lemma i3b I y z : UI (Some I) [NInf; y; z] = 0. Proof. apply UI_inf; reflexivity. Qed.
-  Lemma i3c I x z : UI (Some I) [x; PInf; z] = 0. Proof. apply UI_inf; simpl; destruct x; reflexivity. Qed.
-  Lemma i3d I x z : UI (Some I) [x; NInf; z] = 0. Proof. apply UI_inf; simpl; destruct x; reflexivity. Qed.
-  Lemma i3e I x y : UI (Some I) [x; y; PInf] = 0. Proof. apply UI_inf; simpl; destruct x, y; reflexivity. Qed.
-  Lemma i3f I x y : UI (Some I) [x; y; NInf] = 0. Proof. apply UI_inf; simpl; destruct x, y; reflexivity. Qed.
+  Lemma i3a i j k y z : ok [i; j; k] -> UI (Some [i; j; k]) [PInf; y; z] = 0. Proof. intros; apply UI_inf; auto. Qed.
+  Lemma i3b i j k y z : ok [i; j; k] -> UI (Some [i; j; k]) [NInf; y; z] = 0. Proof. intros; apply UI_inf; auto. Qed.
+  Lemma i3c i j k x z : ok [i; j; k] -> UI (Some [i; j; k]) [x; PInf; z] = 0. Proof. intros; apply UI_inf; auto; simpl; destruct x; reflexivity. Qed.
+  Lemma i3d i j k x z : ok [i; j; k] -> UI (Some [i; j; k]) [x; NInf; z] = 0. Proof. intros; apply UI_inf; auto; simpl; destruct x; reflexivity. Qed.
+  Lemma i3e i j k x y : ok [i; j; k] -> UI (Some [i; j; k]) [x; y; PInf] = 0. Proof. intros; apply UI_inf; auto; simpl; destruct x, y; reflexivity. Qed.
+  Lemma i3f i j k x y : ok [i; j; k] -> UI (Some [i; j; k]) [x; y; NInf] = 0. Proof. intros; apply UI_inf; auto; simpl; destruct x, y; reflexivity. Qed.
   Notation f3 := (fast_3d RNum U1 UI).
 
   Theorem fast_3d_agrees i1 i2 i3 a1 a2 a3 b1 b2 b3 fuel :
-    i1 <> i2 -> i1 <> i3 -> i2 <> i3 -> (3 <= fuel)%nat ->
+    ok3 i1 i2 i3 -> i1 <> i2 -> i1 <> i3 -> i2 <> i3 -> (3 <= fuel)%nat ->
     (straddles RNum a1 b1 && straddles RNum a2 b2 && straddles RNum a3 b3)%bool = false ->
     f3 [a1; a2; a3] [b1; b2; b3] (Some [i1; i2; i3]) = mnd fuel [a1; a2; a3] [b1; b2; b3] [i1; i2; i3].
   Proof.
-    intros H12 H13 H23 Hf Hs. destruct fuel as [|[|[|fuel]]]; try lia.
+    intros [K123 [K12 [K13 [K23 [K1 [K2 K3]]]]]] H12 H13 H23 Hf Hs. destruct fuel as [|[|[|fuel]]]; try lia.
     assert (E12 : (i1 =? i2)%nat = false) by (apply Nat.eqb_neq; assumption).
     assert (E13 : (i1 =? i3)%nat = false) by (apply Nat.eqb_neq; assumption).
     assert (E23 : (i2 =? i3)%nat = false) by (apply Nat.eqb_neq; assumption).
@@ -110,7 +115,7 @@ Section C12.
       try discriminate; try (apply andb_prop in S1; destruct S1 as [A1 B1]); try (apply andb_prop in S2; destruct S2 as [A2 B2]);
       try (apply andb_prop in S3; destruct S3 as [A3 B3]);
       cbn [is_some is_none olen Nat.eqb Nat.ltb Nat.leb andb length].
-    all: repeat node; unfold volume; cbn; rewrite ?i1p, ?i1n, ?i2a, ?i2b, ?i2c, ?i2d, ?i3a, ?i3b, ?i3c, ?i3d, ?i3e, ?i3f, ?UI_one; try ring.
+    all: repeat node; unfold volume; cbn; rewrite ?i1p, ?i1n, ?i2a, ?i2b, ?i2c, ?i2d, ?i3a, ?i3b, ?i3c, ?i3d, ?i3e, ?i3f, ?UI_one by assumption; try ring.
   Qed.
 
   Ltac split_flags a c b Hac Hcb :=
@@ -180,29 +185,29 @@ Section C12.
   Proof. reflexivity. Qed.
   Lemma fast_2d_single a b i : f2 a b (Some [i]) = fast_1d RNum U1 (nth 0 a (Fin 0)) (nth 0 b (Fin 0)) i.
   Proof. reflexivity. Qed.
-  Theorem fast_1d_agrees i a b fuel : straddles RNum a b = false -> fast_1d RNum U1 a b i = mnd fuel [a] [b] [i].
-  Proof. intros H. rewrite mass_nd_none by (cbn [first_straddling]; rewrite H; reflexivity).
-    unfold fast_1d, mass_1d, volume. cbn. rewrite !UI_one. ring. Qed.
+  Theorem fast_1d_agrees i a b fuel : ok [i] -> straddles RNum a b = false -> fast_1d RNum U1 a b i = mnd fuel [a] [b] [i].
+  Proof. intros K H. rewrite mass_nd_none by (cbn [first_straddling]; rewrite H; reflexivity).
+    unfold fast_1d, mass_1d, volume. cbn. rewrite !UI_one by assumption. ring. Qed.
 
-  Lemma U1_pinf i : U1 i PInf = 0. Proof. rewrite <- UI_one. apply i1p. Qed.
-  Lemma U1_ninf i : U1 i NInf = 0. Proof. rewrite <- UI_one. apply i1n. Qed.
-  Ltac infs := rewrite ?i1p, ?i1n, ?i2a, ?i2b, ?i2c, ?i2d, ?i3a, ?i3b, ?i3c, ?i3d, ?i3e, ?i3f, ?U1_pinf, ?U1_ninf.
-  Theorem margin_2d_1 i1 i2 a1 b1 : f2 [a1; NInf] [b1; PInf] (Some [i1; i2]) = fast_1d RNum U1 a1 b1 i1.
-  Proof. unfold fast_2d, fast_1d, mass_2d, mass_1d. cbn [is_some is_none olen Nat.eqb andb length]. rewrite xN1, xP2.
+  Lemma U1_pinf i : ok [i] -> U1 i PInf = 0. Proof. intros H. rewrite <- UI_one by assumption. apply i1p; assumption. Qed.
+  Lemma U1_ninf i : ok [i] -> U1 i NInf = 0. Proof. intros H. rewrite <- UI_one by assumption. apply i1n; assumption. Qed.
+  Ltac infs := rewrite ?i1p, ?i1n, ?i2a, ?i2b, ?i2c, ?i2d, ?i3a, ?i3b, ?i3c, ?i3d, ?i3e, ?i3f, ?U1_pinf, ?U1_ninf by assumption.
+  Theorem margin_2d_1 i1 i2 a1 b1 : ok2 i1 i2 -> f2 [a1; NInf] [b1; PInf] (Some [i1; i2]) = fast_1d RNum U1 a1 b1 i1.
+  Proof. intros [K12 [K1 K2]]. unfold fast_2d, fast_1d, mass_2d, mass_1d. cbn [is_some is_none olen Nat.eqb andb length]. rewrite xN1, xP2.
     destruct (@xlt0 RNum a1 && @xge0 RNum b1)%bool; simpl; infs; ring. Qed.
-  Theorem margin_2d_2 i1 i2 a2 b2 : straddles RNum a2 b2 = false -> f2 [NInf; a2] [PInf; b2] (Some [i1; i2]) = fast_1d RNum U1 a2 b2 i2.
-  Proof. intros H. unfold fast_2d, fast_1d, mass_2d, mass_1d, straddles in *. cbn [is_some is_none olen Nat.eqb andb length]. rewrite xN1, xP2, H.
+  Theorem margin_2d_2 i1 i2 a2 b2 : ok2 i1 i2 -> straddles RNum a2 b2 = false -> f2 [NInf; a2] [PInf; b2] (Some [i1; i2]) = fast_1d RNum U1 a2 b2 i2.
+  Proof. intros [K12 [K1 K2]] H. unfold fast_2d, fast_1d, mass_2d, mass_1d, straddles in *. cbn [is_some is_none olen Nat.eqb andb length]. rewrite xN1, xP2, H.
     simpl; infs; ring. Qed.
-  Theorem margin_3d_3 i1 i2 i3 a1 a2 b1 b2 : (straddles RNum a1 b1 && straddles RNum a2 b2)%bool = false ->
+  Theorem margin_3d_3 i1 i2 i3 a1 a2 b1 b2 : ok3 i1 i2 i3 -> (straddles RNum a1 b1 && straddles RNum a2 b2)%bool = false ->
      f3 [a1; a2; NInf] [b1; b2; PInf] (Some [i1; i2; i3]) = f2 [a1; a2] [b1; b2] (Some [i1; i2]).
-  Proof. intros H. unfold fast_3d, fast_2d, mass_3d, mass_2d, mass_1d, straddles in *. cbn [is_some is_none olen Nat.eqb Nat.ltb Nat.leb andb length]. rewrite xN1, xP2.
+  Proof. intros [K123 [K12 [K13 [K23 [K1 [K2 K3]]]]]] H. unfold fast_3d, fast_2d, mass_3d, mass_2d, mass_1d, straddles in *. cbn [is_some is_none olen Nat.eqb Nat.ltb Nat.leb andb length]. rewrite xN1, xP2.
     destruct (@xlt0 RNum a1 && @xge0 RNum b1)%bool; destruct (@xlt0 RNum a2 && @xge0 RNum b2)%bool; try discriminate; simpl; infs; ring. Qed.
-  Theorem margin_3d_2 i1 i2 i3 a1 a3 b1 b3 : (straddles RNum a1 b1 && straddles RNum a3 b3)%bool = false ->
+  Theorem margin_3d_2 i1 i2 i3 a1 a3 b1 b3 : ok3 i1 i2 i3 -> (straddles RNum a1 b1 && straddles RNum a3 b3)%bool = false ->
      f3 [a1; NInf; a3] [b1; PInf; b3] (Some [i1; i2; i3]) = f2 [a1; a3] [b1; b3] (Some [i1; i3]).
-  Proof. intros H. unfold fast_3d, fast_2d, mass_3d, mass_2d, mass_1d, straddles in *. cbn [is_some is_none olen Nat.eqb Nat.ltb Nat.leb andb length]. rewrite xN1, xP2.
+  Proof. intros [K123 [K12 [K13 [K23 [K1 [K2 K3]]]]]] H. unfold fast_3d, fast_2d, mass_3d, mass_2d, mass_1d, straddles in *. cbn [is_some is_none olen Nat.eqb Nat.ltb Nat.leb andb length]. rewrite xN1, xP2.
     destruct (@xlt0 RNum a1 && @xge0 RNum b1)%bool; destruct (@xlt0 RNum a3 && @xge0 RNum b3)%bool; try discriminate; simpl; infs; ring. Qed.
-  Theorem margin_3d_1 i1 i2 i3 a2 a3 b2 b3 : (straddles RNum a2 b2 && straddles RNum a3 b3)%bool = false ->
+  Theorem margin_3d_1 i1 i2 i3 a2 a3 b2 b3 : ok3 i1 i2 i3 -> (straddles RNum a2 b2 && straddles RNum a3 b3)%bool = false ->
      f3 [NInf; a2; a3] [PInf; b2; b3] (Some [i1; i2; i3]) = f2 [a2; a3] [b2; b3] (Some [i2; i3]).
-  Proof. intros H. unfold fast_3d, fast_2d, mass_3d, mass_2d, mass_1d, straddles in *. cbn [is_some is_none olen Nat.eqb Nat.ltb Nat.leb andb length]. rewrite xN1, xP2.
+  Proof. intros [K123 [K12 [K13 [K23 [K1 [K2 K3]]]]]] H. unfold fast_3d, fast_2d, mass_3d, mass_2d, mass_1d, straddles in *. cbn [is_some is_none olen Nat.eqb Nat.ltb Nat.leb andb length]. rewrite xN1, xP2.
     destruct (@xlt0 RNum a2 && @xge0 RNum b2)%bool; destruct (@xlt0 RNum a3 && @xge0 RNum b3)%bool; try discriminate; simpl; infs; ring. Qed.
 End C12.
